@@ -308,6 +308,14 @@ XalanSourceTreeDocument::getDocumentElement() const
 XalanElement*
 XalanSourceTreeDocument::getElementById(const XalanDOMString&   elementId) const
 {
+    // An empty XalanMap allocates its list head on the first end()/find(),
+    // even through the const overloads, which is not safe when the document
+    // is shared between threads.
+    if (m_elementsByID.empty())
+    {
+        return 0;
+    }
+
     const ElementByIDMapType::const_iterator    i =
         m_elementsByID.find(elementId.c_str());
 
@@ -981,6 +989,12 @@ XalanSourceTreeDocument::unparsedEntityDeclaration(
 const XalanDOMString&
 XalanSourceTreeDocument::getUnparsedEntityURI(const XalanDOMString&     theName) const
 {
+    // See getElementById().
+    if (m_unparsedEntityURIs.empty())
+    {
+        return s_emptyString;
+    }
+
     const UnparsedEntityURIMapType::const_iterator  i =
         m_unparsedEntityURIs.find(theName);
 
